@@ -18,6 +18,7 @@ type modTarget struct {
 	field int    // >= 0: only this field of the struct at ref
 	structSort string
 	owned bool
+	ownerPkg *types.Package
 	text  string
 }
 
@@ -36,17 +37,21 @@ func (fr *Frame) evalModTarget(env *Env, x ast.Expr, text string) []modTarget {
 				}
 				c, cs := u.elemComp(st.Elem())
 				owned := false
+				var ownerPkg *types.Package
 				if sel, ok := call.Args[0].(*ast.SelectorExpr); ok {
 					bv := env.eval(sel.X)
 					if ts := u.eng.lib.Types[typeKey(derefType(bv.Ty))]; ts != nil {
 						for _, o := range ts.Owned {
 							if o == sel.Sel.Name {
 								owned = true
+								if n, ok := derefType(bv.Ty).(*types.Named); ok {
+									ownerPkg = n.Obj().Pkg()
+								}
 							}
 						}
 					}
 				}
-				return []modTarget{{comp: c, sort: cs, ref: app("s_arr", s.T), field: -1, owned: owned, text: text}}
+				return []modTarget{{comp: c, sort: cs, ref: app("s_arr", s.T), field: -1, owned: owned, ownerPkg: ownerPkg, text: text}}
 			case "recv":
 				c := env.eval(call.Args[0])
 				return []modTarget{{comp: "ChRecv", sort: "(Array Int Int)", ref: c.T, field: -1, text: text}}
@@ -57,7 +62,8 @@ func (fr *Frame) evalModTarget(env *Env, x ast.Expr, text string) []modTarget {
 				c := env.eval(call.Args[0])
 				cht := c.Ty.Underlying().(*types.Chan)
 				sc, ss := u.chanElemComp(cht)
-				return []modTarget{{comp: sc, sort: ss, ref: c.T, field: -1, text: text}, {comp: "ChSentN", sort: "(Array Int Int)", ref: c.T, field: -1, text: text}}
+				return []modTarget{{comp: sc, sort: ss, ref: c.T, field: -1, text: text}, {comp: "ChSentN", sort: "(Array Int Int)", ref: c.T, field: -1, text: text},
+					{comp: "ChStamp", sort: "(Array Int (Array Int Int))", ref: c.T, field: -1, text: text}}
 			case "mapof":
 				m := env.eval(call.Args[0])
 				mt := m.Ty.Underlying().(*types.Map)
@@ -115,7 +121,7 @@ func (fr *Frame) evalModTarget(env *Env, x ast.Expr, text string) []modTarget {
 func (fr *Frame) havocTarget(env *Env, m *Clause, h Heap, pre Heap) {
 	u := fr.u
 	for _, t := range fr.evalModTarget(env, m.Expr, m.Text) {
-		if t.owned && (fr.topPkg() == nil || !samePkgAsType(fr.topPkg(), t, env)) {
+		if t.owned && (fr.topPkg() == nil || fr.topPkg().Pkg != t.ownerPkg) {
 			continue // private backing store: invisible to this caller (see 'owned' / encapsulation obligation)
 		}
 		cur := u.comp(h, t.comp, t.sort)
@@ -146,10 +152,6 @@ func (fr *Frame) topPkg() *ssa.Package {
 	return f.fn.Pkg
 }
 
-func samePkgAsType(p *ssa.Package, t modTarget, env *Env) bool {
-	// owned targets are only visible inside the package that declares the type
-	return env.pkg != nil && p == env.pkg
-}
 
 // ---------------------------------------------------------------- local name resolution
 
@@ -317,7 +319,9 @@ func (e *Engine) verifyFunction(key string) (u *Unit, err error) {
 		ienv := fr.baseEnv(h)
 		ienv.vars["self"] = recvVal
 		for _, inv := range recvInv {
-			u.assume(ienv.evalBool(inv.Expr))
+			if u.active(inv.Props) {
+				u.assume(ienv.evalBool(inv.Expr))
+			}
 		}
 	}
 	if ct != nil {
@@ -328,7 +332,9 @@ func (e *Engine) verifyFunction(key string) (u *Unit, err error) {
 			env.vars[l.Name] = fr.names[l.Name]
 		}
 		for _, rq := range ct.Requires {
-			u.assume(env.evalBool(rq.Expr))
+			if u.active(rq.Props) || contains(rq.Props, "C07") {
+				u.assume(env.evalBool(rq.Expr))
+			}
 		}
 		for _, us := range ct.Uses {
 			u.assume(env.evalBool(us.Expr))
@@ -345,6 +351,7 @@ func (e *Engine) verifyFunction(key string) (u *Unit, err error) {
 			targets = append(targets, fr.evalModTarget(env, m.Expr, m.Text)...)
 		}
 	}
+	fr.frameTargets = targets
 	fr.frameAllowed = func(comp string, r string, hh Heap) string {
 		var alts []string
 		for _, t := range targets {
@@ -373,15 +380,33 @@ func (e *Engine) verifyFunction(key string) (u *Unit, err error) {
 	penv := fr.baseEnv(res.heap)
 	penv.bindResults(res.vals, fn.Signature)
 	for _, en := range ct.Ensures {
-		g := penv.evalBool(en.Expr)
-		ob := u.oblig("post", en.Text, implies(res.reach, g), en.Props)
-		ob.Pos = en.Where
+		if !u.active(en.Props) {
+			continue
+		}
+		parts := splitConj(en.Expr)
+		for _, part := range parts {
+			g := penv.evalBool(part)
+			txt := en.Text
+			if len(parts) > 1 {
+				txt = exprString(part) + "   [part of: " + trunc(en.Text, 80) + "]"
+			}
+			ob := u.oblig("post", txt, implies(res.reach, g), en.Props)
+			ob.Pos = en.Where
+		}
 	}
-	// receiver type invariant re-established
+	// receiver type invariant re-established (pointer receivers only: a value receiver is a copy)
+	if recvInv != nil {
+		if _, isPtr := fn.Signature.Recv().Type().Underlying().(*types.Pointer); !isPtr {
+			recvInv = nil
+		}
+	}
 	if recvInv != nil {
 		ienv := fr.baseEnv(res.heap)
 		ienv.vars["self"] = recvVal
 		for _, inv := range recvInv {
+			if !u.active(inv.Props) {
+				continue
+			}
 			ob := u.oblig("type-inv", "type invariant re-established: "+inv.Text, implies(res.reach, ienv.evalBool(inv.Expr)), inv.Props)
 			ob.Pos = inv.Where
 		}
@@ -454,9 +479,6 @@ func (e *Engine) recvTypeSpec(fn *ssa.Function) *TypeSpec {
 	}
 	ts := e.lib.Types[typeKey(n)]
 	if ts == nil || len(ts.Invs) == 0 {
-		return nil
-	}
-	if _, isPtr := fn.Params[0].Type().Underlying().(*types.Pointer); !isPtr {
 		return nil
 	}
 	return ts
